@@ -1,133 +1,122 @@
-(* C40 — CLI output formats round-trip the result.
+(* C40 — CLI output formats round-trip the result (writer after fixes efda2f4 and 8d4c59c).
    This file holds only statement pins, `exact` proofs and Print Assumptions.
    Bytes: 44 comma, 34 DQUOTE, 10 LF, 13 CR, 92 backslash, 9 TAB. *)
 From QV Require Import Base.Util C40.Model C40.Proofs.
 
-(* CSV: for every table outside the classes known_cr / known_header (and with >= 1 column), the
-   bytes the writer emits parse, under RFC 4180, to exactly the header and the shown cell texts *)
+(* CSV: for EVERY table with at least one column and rectangular rows, the bytes the writer emits
+   parse, under RFC 4180, to exactly the column names and the shown cell texts *)
 Theorem C40_csv_roundtrip : forall t : table,
-  table_wf t && negb (known_cr t) && negb (known_header t) = true ->
+  negb (nilb (t_cols t)) && forallb (fun r => Nat.eqb (length r) (length (t_cols t))) (t_rows t) = true ->
   csv_parse (csv_doc t) = Some (t_cols t :: map (map csv_shown) (t_rows t)).
 Proof. exact csv_roundtrip. Qed.
 
 Theorem C40_csv_model_meets_spec : forall t : table,
-  csv_guard t = true -> csv_spec_ok t (csv_doc t) = true.
+  table_wf t = true -> csv_spec_ok t (csv_doc t) = true.
 Proof. exact csv_model_meets_spec. Qed.
 
-(* integer cells are never in the class *)
-Theorem C40_int_never_known_cr : forall n : Z, known_cr_cell (CInt n) = false.
-Proof. exact int_never_known_cr. Qed.
+(* integers are printed bare *)
+Theorem C40_int_never_quoted : forall n : Z, csv_field (CInt n) = int_dec n.
+Proof. exact int_never_quoted. Qed.
 
-(* the full property is false of the writer: a cell that is one CR is written unquoted and lost *)
-Theorem C40_cr_unquoted_refuted :
-  let t := mkTable [[104]] [[CStr [13]]] in
-  known_cr t = true /\ table_wf t = true /\ known_header t = false /\
-  csv_doc t = [104; 10; 13; 10] /\
-  csv_parse (csv_doc t) = Some [[[104]]; [[]]] /\
-  csv_parse (csv_doc t) <> Some (csv_displayed t).
-Proof. exact cr_unquoted_refuted. Qed.
-
-(* a CR inside a cell makes the document unparsable *)
-Theorem C40_cr_mid_refuted :
-  let t := mkTable [[104]] [[CStr [97; 13; 98]]] in
-  known_cr t = true /\ csv_parse (csv_doc t) = None.
-Proof. exact cr_mid_refuted. Qed.
-
-(* the class is exact for one cell: EVERY text with a CR that the writer leaves unquoted is lost *)
-Theorem C40_cr_cell_never_roundtrips : forall h v : list Z,
-  csv_plain h = true -> has 13 v && negb (csv_needs_quote v) = true ->
-  csv_parse (csv_doc (mkTable [h] [[CStr v]])) <> Some (csv_displayed (mkTable [h] [[CStr v]])).
-Proof. exact cr_cell_never_roundtrips. Qed.
-
-(* column names are never quoted *)
-Theorem C40_header_unquoted_refuted :
-  let t := mkTable [[97; 44; 98]] [] in
-  known_header t = true /\ table_wf t = true /\ known_cr t = false /\
-  csv_parse (csv_doc t) = Some [[[97]; [98]]] /\
-  csv_parse (csv_doc t) <> Some (csv_displayed t).
-Proof. exact header_unquoted_refuted. Qed.
-
-Theorem C40_header_quote_refuted :
-  let t := mkTable [[97; 34]] [] in
-  known_header t = true /\ csv_parse (csv_doc t) = None.
-Proof. exact header_quote_refuted. Qed.
-
-(* JSON strings: round trip exactly when the string has no control character *)
+(* JSON strings: EVERY byte string round-trips *)
 Theorem C40_json_roundtrip : forall s : list Z,
-  forallb (fun b => 32 <=? b) s = true -> json_unescape (json_string s) = Some s.
+  forallb (fun b => 0 <=? b) s = true -> json_unescape (json_string s) = Some s.
 Proof. exact json_roundtrip. Qed.
-
-Theorem C40_json_control_never_roundtrips : forall s : list Z,
-  existsb (fun b => b <? 32) s = true -> json_unescape (json_string s) = None.
-Proof. exact json_control_never_roundtrips. Qed.
-
-Theorem C40_json_roundtrip_iff : forall s : list Z,
-  json_unescape (json_string s) = Some s <-> known_json_control_str s = false.
-Proof. exact json_roundtrip_iff. Qed.
-
-Theorem C40_control_char_refuted :
-  known_json_control_str [10] = true /\ json_string [10] = [34; 10; 34] /\
-  json_unescape (json_string [10]) = None.
-Proof. exact control_char_refuted. Qed.
-
-Theorem C40_json_doc_control_refuted :
-  let t := mkTable [[104]] [[CStr [9]]] in
-  known_json_control t = true /\ json_parse_doc (json_doc t) = None.
-Proof. exact json_doc_control_refuted. Qed.
-
-(* column names are never escaped *)
-Theorem C40_json_header_refuted :
-  let t := mkTable [[97; 34]] [[CInt 1]] in
-  known_json_header t = true /\ table_wf t = true /\ json_parse_doc (json_doc t) = None.
-Proof. exact json_header_refuted. Qed.
-
-Theorem C40_json_header_backslash_refuted :
-  let t := mkTable [[97; 92; 110]] [[CInt 1]] in
-  known_json_header t = true /\ json_parse_doc (json_doc t) = Some [[([97; 10], JNum [49])]].
-Proof. exact json_header_backslash_refuted. Qed.
-
-(* NaN / inf / -inf are printed bare *)
-Theorem C40_json_nonfinite_refuted :
-  let t := mkTable [[104]] [[CFloat [78; 97; 78]]] in
-  known_json_nonfinite t = true /\
-  json_doc t = [91; 10; 32; 32; 123; 34; 104; 34; 58; 32; 78; 97; 78; 125; 10; 93; 10] /\
-  json_parse_doc (json_doc t) = None.
-Proof. exact json_nonfinite_refuted. Qed.
 
 (* i64::to_string always prints an RFC 8259 number *)
 Theorem C40_int_dec_number_ok : forall n : Z,
   (-9223372036854775808 <=? n) && (n <=? 9223372036854775807) = true -> json_number_ok (int_dec n) = true.
 Proof. exact int_dec_number_ok. Qed.
 
-(* JSON documents: for every table outside known_json_control / known_json_header /
-   known_json_nonfinite, the emitted bytes parse to one object per row whose members are the
-   column names with null / the string / the displayed number *)
+(* JSON documents: for every well-formed table whose strings are bytes, whose integers are i64 and
+   whose float texts are what std prints (NaN / inf / -inf or a decimal number), the emitted bytes
+   parse to one object per row whose members are the column names with null / the string / the
+   displayed number (null for a non-finite float) *)
 Theorem C40_json_doc_roundtrip : forall t : table,
-  table_wf t && table_typed t && negb (known_json_control t) && negb (known_json_header t)
-    && negb (known_json_nonfinite t) = true ->
+  table_wf t && table_typed t = true ->
   json_parse_doc (json_doc t) = Some (map (fun r => combine (t_cols t) (map jval_of r)) (t_rows t)).
 Proof. exact json_doc_roundtrip. Qed.
 
 Theorem C40_json_model_meets_spec : forall t : table,
-  json_guard t = true -> json_spec_ok t (json_doc t) = true.
+  table_wf t && table_typed t = true -> json_spec_ok t (json_doc t) = true.
 Proof. exact json_model_meets_spec. Qed.
+
+(* ---- regression theorems: the writer before the fixes fails on these minimal inputs, the
+        repaired writer round-trips them ---- *)
+Theorem C40_cr_unquoted_regression :
+  let t := mkTable [[104]] [[CStr [13]]] in
+  csv_doc_before_fix t = [104; 10; 13; 10] /\
+  csv_parse (csv_doc_before_fix t) = Some [[[104]]; [[]]] /\
+  csv_parse (csv_doc_before_fix t) <> Some (csv_displayed t) /\
+  csv_doc t = [104; 10; 34; 13; 34; 10] /\
+  csv_parse (csv_doc t) = Some (csv_displayed t).
+Proof. exact cr_unquoted_regression. Qed.
+
+Theorem C40_cr_mid_regression :
+  let t := mkTable [[104]] [[CStr [97; 13; 98]]] in
+  csv_parse (csv_doc_before_fix t) = None /\ csv_parse (csv_doc t) = Some (csv_displayed t).
+Proof. exact cr_mid_regression. Qed.
+
+Theorem C40_header_unquoted_regression :
+  let t := mkTable [[97; 44; 98]] [] in
+  csv_parse (csv_doc_before_fix t) = Some [[[97]; [98]]] /\
+  csv_parse (csv_doc_before_fix t) <> Some (csv_displayed t) /\
+  csv_parse (csv_doc t) = Some (csv_displayed t).
+Proof. exact header_unquoted_regression. Qed.
+
+Theorem C40_header_quote_regression :
+  let t := mkTable [[97; 34]] [] in
+  csv_parse (csv_doc_before_fix t) = None /\ csv_parse (csv_doc t) = Some (csv_displayed t).
+Proof. exact header_quote_regression. Qed.
+
+(* the old escaper produced invalid JSON for EVERY string with a control character *)
+Theorem C40_json_control_regression : forall s : list Z,
+  existsb (fun b => b <? 32) s = true -> json_unescape (json_string_before_fix s) = None.
+Proof. exact json_control_regression. Qed.
+
+Theorem C40_control_char_regression :
+  json_string_before_fix [10] = [34; 10; 34] /\ json_unescape (json_string_before_fix [10]) = None /\
+  json_string [10] = [34; 92; 110; 34] /\ json_unescape (json_string [10]) = Some [10] /\
+  json_string [1] = [34; 92; 117; 48; 48; 48; 49; 34] /\ json_string [31] = [34; 92; 117; 48; 48; 49; 102; 34].
+Proof. exact control_char_regression. Qed.
+
+Theorem C40_json_doc_control_regression :
+  let t := mkTable [[104]] [[CStr [9]]] in
+  json_parse_doc (json_doc_before_fix t) = None /\ json_parse_doc (json_doc t) = Some (json_expected t).
+Proof. exact json_doc_control_regression. Qed.
+
+Theorem C40_json_header_regression :
+  let t := mkTable [[97; 34]] [[CInt 1]] in
+  json_parse_doc (json_doc_before_fix t) = None /\ json_parse_doc (json_doc t) = Some (json_expected t).
+Proof. exact json_header_regression. Qed.
+
+Theorem C40_json_header_backslash_regression :
+  let t := mkTable [[97; 92; 110]] [[CInt 1]] in
+  json_parse_doc (json_doc_before_fix t) = Some [[([97; 10], JNum [49])]] /\
+  json_parse_doc (json_doc t) = Some [[([97; 92; 110], JNum [49])]].
+Proof. exact json_header_backslash_regression. Qed.
+
+Theorem C40_json_nonfinite_regression :
+  let t := mkTable [[104]] [[CFloat [78; 97; 78]]] in
+  json_doc_before_fix t = [91; 10; 32; 32; 123; 34; 104; 34; 58; 32; 78; 97; 78; 125; 10; 93; 10] /\
+  json_parse_doc (json_doc_before_fix t) = None /\
+  json_parse_doc (json_doc t) = Some [[([104], JNull)]].
+Proof. exact json_nonfinite_regression. Qed.
 
 Print Assumptions C40_csv_roundtrip.
 Print Assumptions C40_csv_model_meets_spec.
-Print Assumptions C40_int_never_known_cr.
-Print Assumptions C40_cr_unquoted_refuted.
-Print Assumptions C40_cr_mid_refuted.
-Print Assumptions C40_cr_cell_never_roundtrips.
-Print Assumptions C40_header_unquoted_refuted.
-Print Assumptions C40_header_quote_refuted.
+Print Assumptions C40_int_never_quoted.
 Print Assumptions C40_json_roundtrip.
-Print Assumptions C40_json_control_never_roundtrips.
-Print Assumptions C40_json_roundtrip_iff.
-Print Assumptions C40_control_char_refuted.
-Print Assumptions C40_json_doc_control_refuted.
-Print Assumptions C40_json_header_refuted.
-Print Assumptions C40_json_header_backslash_refuted.
-Print Assumptions C40_json_nonfinite_refuted.
 Print Assumptions C40_int_dec_number_ok.
 Print Assumptions C40_json_doc_roundtrip.
 Print Assumptions C40_json_model_meets_spec.
+Print Assumptions C40_cr_unquoted_regression.
+Print Assumptions C40_cr_mid_regression.
+Print Assumptions C40_header_unquoted_regression.
+Print Assumptions C40_header_quote_regression.
+Print Assumptions C40_json_control_regression.
+Print Assumptions C40_control_char_regression.
+Print Assumptions C40_json_doc_control_regression.
+Print Assumptions C40_json_header_regression.
+Print Assumptions C40_json_header_backslash_regression.
+Print Assumptions C40_json_nonfinite_regression.
